@@ -218,9 +218,29 @@ def rule_SB4(rep, prog):
                    "queue by a loop over do_targetq", floor=3)
     fn = prog.fn("dispatch_apply_f")
     rep.saw(fn)
-    subs = [c for c in fn.all_insts() if c.op == "call" and c.callee and any(o[0] == "f" and o[1] in ("_dispatch_apply_serial", "_dispatch_apply_redirect") for o in c.ops)]
-    if len(subs) < 2:
-        rep.unknown(rid, "expected the apply to delegate to the custom queue at least twice in dispatch_apply_f (found %d)" % len(subs))
+    def fn_roots(op, depth=0):
+        if op[0] == "f":
+            return {op[1]}
+        i = fn.inst(op) if op[0] == "i" else None
+        if i is None or depth > 6:
+            return {None}
+        if i.op == "phi":
+            return set().union(*[fn_roots(v, depth + 1) for v, frm in i.ops])
+        if i.op == "select":
+            return fn_roots(i.ops[1], depth + 1) | fn_roots(i.ops[2], depth + 1)
+        if i.op == "bitcast":
+            return fn_roots(i.ops[0], depth + 1)
+        return {None}
+    subs, targets = [], set()
+    for c in fn.all_insts():
+        if c.op == "call" and c.callee:
+            for o in c.ops:
+                r = fn_roots(o) if o[0] in ("f", "i") else {None}
+                if r and r <= {"_dispatch_apply_serial", "_dispatch_apply_redirect"}:
+                    subs.append(c)
+                    targets |= r
+    if targets != {"_dispatch_apply_serial", "_dispatch_apply_redirect"}:
+        rep.unknown(rid, "expected dispatch_apply_f to delegate to the custom queue with _dispatch_apply_serial and _dispatch_apply_redirect (found %s)" % sorted(targets))
     for c in subs:
         rep.require(rid, c.callee == "dispatch_sync_f", c.loc, fn.name, "apply-submitted-as-barrier",
                     "dispatch_apply_f submits the apply to its queue through %s instead of dispatch_sync_f: as a barrier it has to wait for every running item of "
